@@ -276,10 +276,22 @@ theorem mem_kids_insert {kvs : AMap Addr} {name : String} {v k : Addr}
   · exact Or.inl rfl
   · exact Or.inr ⟨p, hp, rfl⟩
 
+/-- where below `c` the written cell `w` lies, and what happens to `c`'s own children map: a call
+    that goes through the member `key` writes `c` itself or a cell below that member, and no other
+    member of `c` changes -/
+def KeySpec (h : Heap) (c w : Addr) (key : String) (h' : Heap) : Prop :=
+  ∀ kvs, h.get? c = some (.cont kvs) →
+    (w = c ∨ ∃ kp, AMap.get? kvs key = some kp ∧ Reach h kp w) ∧
+    ∃ kvs', h'.get? c = some (.cont kvs') ∧ ∀ k, k ≠ key → AMap.get? kvs' k = AMap.get? kvs k
+
+theorem segBase_eq {name b : String} {is : List Nat} (hp : parseSeg name = (b, is)) : segBase name = b := by
+  simp [segBase, hp]
+
 /-- `add(name, v)` / `AddValue`: one existing cell is written — the receiver, or (for a name with
     index groups whose lists exist) the deepest reused list -/
-theorem addH_spec {h h' : Heap} {rank : Addr → Nat} (hr : h.RankedBy rank) (hn : h.NilOk) (hm : h.MapsOk)
-    {c v : Addr} {name : String} (he : addH h c name v = some h') : ∃ w, AttachSpec h c v w h' := by
+theorem addH_spec2 {h h' : Heap} {rank : Addr → Nat} (hr : h.RankedBy rank) (hn : h.NilOk) (hm : h.MapsOk)
+    {c v : Addr} {name : String} (he : addH h c name v = some h') :
+    ∃ w, AttachSpec h c v w h' ∧ KeySpec h c w (segBase name) h' := by
   unfold addH at he
   split at he
   case h_2 => cases he
@@ -288,11 +300,14 @@ theorem addH_spec {h h' : Heap} {rank : Addr → Nat} (hr : h.RankedBy rank) (hn
   cases hp : parseSeg name with
   | mk b is =>
   simp only [hp] at he
+  rw [segBase_eq hp]
   cases is with
   | nil =>
     simp only [Option.some.injEq] at he
     subst he
-    refine ⟨c, (by rw [size_write]; exact Nat.le_refl _), .refl _, fun a _ hne => get?_write_ne h _ hne, ?_, ?_⟩
+    have hb : b = name := Ytk.parseSeg_nil_base hp
+    subst hb
+    refine ⟨c, ⟨(by rw [size_write]; exact Nat.le_refl _), .refl _, fun a _ hne => get?_write_ne h _ hne, ?_, ?_⟩, ?_⟩
     · refine ⟨_, _, hg, get?_write_self h _ hclt, rfl, rfl, rfl, ?_, ?_⟩
       · intro k hk
         rcases mem_kids_insert hk with hk | hk
@@ -305,6 +320,9 @@ theorem addH_spec {h h' : Heap} {rank : Addr → Nat} (hr : h.RankedBy rank) (hn
       have := get?_lt hga
       rw [size_write] at this
       exact absurd this (Nat.not_lt.mpr ha)
+    · intro kvs0 hg0
+      rw [hg] at hg0; cases hg0
+      exact ⟨Or.inl rfl, _, get?_write_self h _ hclt, fun k hk => AMap.get?_insert_ne _ _ hk⟩
   | cons i is' =>
     have spec := setSlotH_spec hr hn v (i :: is') (AMap.get? kvs b)
     generalize setSlotH h (AMap.get? kvs b) (i :: is') v = res at spec he
@@ -316,7 +334,7 @@ theorem addH_spec {h h' : Heap} {rank : Addr → Nat} (hr : h.RankedBy rank) (hn
     | none =>
       obtain ⟨hfr, hrf⟩ := spec.notList hl
       have hrf := hrf (by simp)
-      refine ⟨c, (by rw [size_write]; exact spec.size_le), .refl _, ?_, ?_, spec.fresh.write_old _ hclt⟩
+      refine ⟨c, ⟨(by rw [size_write]; exact spec.size_le), .refl _, ?_, ?_, spec.fresh.write_old _ hclt⟩, ?_⟩
       · intro a ha hne
         rw [get?_write_ne _ _ hne]; exact hfr a ha
       · refine ⟨_, _, hg, get?_write_self h1 _ hc1, rfl, rfl, rfl, ?_, ?_⟩
@@ -328,6 +346,9 @@ theorem addH_spec {h h' : Heap} {rank : Addr → Nat} (hr : h.RankedBy rank) (hn
         · intro k1 k2 e1 e2 hs
           cases e1; cases e2
           exact AMap.sorted_insert hs _ _
+      · intro kvs0 hg0
+        rw [hg] at hg0; cases hg0
+        exact ⟨Or.inl rfl, _, get?_write_self h1 _ hc1, fun k hk => AMap.get?_insert_ne _ _ hk⟩
     | some q =>
       obtain ⟨a, xs⟩ := q
       obtain ⟨hra, w, ys, ys', hrw, hgw, hgw', hkids, hframe⟩ := spec.isList a xs hl (by simp)
@@ -335,13 +356,22 @@ theorem addH_spec {h h' : Heap} {rank : Addr → Nat} (hr : h.RankedBy rank) (hn
       subst hra
       have hwc : w ≠ c := not_reach_parent hr hg (mem_kids_of_get? hget) hrw
       rw [Ytk.insert_put_back (hm c kvs hg) hget]
-      have hsame : h1.write c (.cont kvs) = h1 := write_same (by rw [hframe c hclt (Ne.symm hwc)]; exact hg)
+      have hc1' : h1.get? c = some (.cont kvs) := by rw [hframe c hclt (Ne.symm hwc)]; exact hg
+      have hsame : h1.write c (.cont kvs) = h1 := write_same hc1'
       rw [hsame]
-      refine ⟨w, spec.size_le, .step hg (mem_kids_of_get? hget) hrw, hframe, ?_, spec.fresh⟩
-      refine ⟨_, _, hgw, hgw', rfl, rfl, rfl, ?_, ?_⟩
-      · intro k hk
-        exact hkids k (by simpa [Cell.kids] using hk)
-      · intro k1 k2 e1; cases e1
+      refine ⟨w, ⟨spec.size_le, .step hg (mem_kids_of_get? hget) hrw, hframe, ?_, spec.fresh⟩, ?_⟩
+      · refine ⟨_, _, hgw, hgw', rfl, rfl, rfl, ?_, ?_⟩
+        · intro k hk
+          exact hkids k (by simpa [Cell.kids] using hk)
+        · intro k1 k2 e1; cases e1
+      · intro kvs0 hg0
+        rw [hg] at hg0; cases hg0
+        exact ⟨Or.inr ⟨r, hget, hrw⟩, kvs, hc1', fun _ _ => rfl⟩
+
+theorem addH_spec {h h' : Heap} {rank : Addr → Nat} (hr : h.RankedBy rank) (hn : h.NilOk) (hm : h.MapsOk)
+    {c v : Addr} {name : String} (he : addH h c name v = some h') : ∃ w, AttachSpec h c v w h' := by
+  obtain ⟨w, spec, _⟩ := addH_spec2 hr hn hm he
+  exact ⟨w, spec⟩
 
 /-- a heap that is at least as large and agrees on every old cell is an extension -/
 theorem le_of_frame {h h' : Heap} (hs : h.size ≤ h'.size) (hf : ∀ a, a < h.size → h'.get? a = h.get? a) :
@@ -519,6 +549,29 @@ theorem contChildH_some {h : Heap} {c x : Addr} {p : String} (hcc : contChildH h
     · cases hcc
   · cases hcc
 
+/-- an attaching call made after new cells were allocated for the node `r` it attaches, seen from
+    the heap before those allocations -/
+theorem AttachSpec.of_spine {h h1 h' : Heap} {c v r w : Addr} (hc : h.Closed) (hl : h ≤ h1)
+    (hf : FreshKids h.size v h1) (hrf : h.size ≤ r ∧ r < h1.size) (hclt : c < h.size)
+    (spec : AttachSpec h1 c r w h') : AttachSpec h c v w h' := by
+  have hsz := size_le_of_le hl
+  have hrw : Reach h c w := reach_of_le hl hc spec.reach_w hclt
+  have hwlt : w < h.size := reach_lt hc hrw hclt
+  refine ⟨Nat.le_trans hsz spec.size_le, hrw, ?_, ?_, ?_⟩
+  · intro a ha hne
+    rw [spec.frame a (Nat.lt_of_lt_of_le ha hsz) hne, get?_eq_of_le hl ha]
+  · obtain ⟨cw, cw', h1w, h2w, k1, k2, k3, hk, hs⟩ := spec.written
+    refine ⟨cw, cw', by rw [← get?_eq_of_le hl hwlt]; exact h1w, h2w, k1, k2, k3, ?_, hs⟩
+    intro k hkm
+    rcases hk k hkm with hk | hk | hk | hk
+    · exact Or.inl hk
+    · exact Or.inr (Or.inl hk)
+    · subst hk
+      exact Or.inr (Or.inr (Or.inr ⟨hrf.1, Nat.lt_of_lt_of_le hrf.2 spec.size_le⟩))
+    · exact Or.inr (Or.inr (Or.inr ⟨Nat.le_trans hsz hk.1, hk.2⟩))
+  · exact hf.trans (fun a ha halt => spec.frame a halt (Nat.ne_of_gt (Nat.lt_of_lt_of_le hwlt ha)))
+      spec.fresh (Or.inl hrf) hsz
+
 /-- `AddValueAt`: exactly one existing cell is written — the last existing container on the path
     (or the deepest reused list of its last component); everything else that is new is allocated -/
 theorem addAtSegsH_spec {h : Heap} {rank : Addr → Nat} (hc : h.Closed) (hr : h.RankedBy rank) (hn : h.NilOk)
@@ -548,22 +601,7 @@ theorem addAtSegsH_spec {h : Heap} {rank : Addr → Nat} (hc : h.Closed) (hr : h
       have hsz := size_le_of_le hl
       obtain ⟨rank1, hr1⟩ := rankedBy_extend hl hc hr hf hv hpos
       obtain ⟨w, spec⟩ := addH_spec hr1 (nilOk_mono hn hl) (mapsOk_extend hl hm hf) he
-      have hrw : Reach h c w := reach_of_le hl hc spec.reach_w hclt
-      have hwlt : w < h.size := reach_lt hc hrw hclt
-      refine ⟨w, Nat.le_trans hsz spec.size_le, hrw, ?_, ?_, ?_⟩
-      · intro a ha hne
-        rw [spec.frame a (Nat.lt_of_lt_of_le ha hsz) hne, get?_eq_of_le hl ha]
-      · obtain ⟨cw, cw', h1w, h2w, k1, k2, k3, hk, hs⟩ := spec.written
-        refine ⟨cw, cw', by rw [← get?_eq_of_le hl hwlt]; exact h1w, h2w, k1, k2, k3, ?_, hs⟩
-        intro k hkm
-        rcases hk k hkm with hk | hk | hk | hk
-        · exact Or.inl hk
-        · exact Or.inr (Or.inl hk)
-        · subst hk
-          exact Or.inr (Or.inr (Or.inr ⟨hrf.1, Nat.lt_of_lt_of_le hrf.2 spec.size_le⟩))
-        · exact Or.inr (Or.inr (Or.inr ⟨Nat.le_trans hsz hk.1, hk.2⟩))
-      · exact hf.trans (fun a ha halt => spec.frame a halt (Nat.ne_of_gt (Nat.lt_of_lt_of_le hwlt ha)))
-          spec.fresh (Or.inl hrf) hsz
+      exact ⟨w, spec.of_spine hc hl hf hrf hclt⟩
 
 theorem rankedBy_alloc_empty {h : Heap} {rank : Addr → Nat} (hr : h.RankedBy rank) {c0 : Cell} (hk : c0.kids = []) :
     (h.alloc c0).1.RankedBy rank := by
@@ -1702,5 +1740,244 @@ theorem addListH_fresh {h h2 : Heap} {rank : Addr → Nat} (hc : h.Closed) (hr :
     · cases he
   obtain ⟨h1, h2', h3⟩ := addNew_fresh hc hr hn rfl hclt he' spec
   exact ⟨rfl, h1, h2', w, reach_of_le (le_alloc _ _) hc spec.reach_w hclt, h3⟩
+
+/-! ## 12. FRAME at pointer level: a write at a diverging path does not move a handle -/
+
+theorem childH_base {h : Heap} {c y : Addr} {kvs : AMap Addr} (hg : h.get? c = some (.cont kvs)) {p : String}
+    (hch : childH h c p = some y) : ∃ kp, AMap.get? kvs (segBase p) = some kp ∧ Reach h kp y := by
+  simp only [childH, hg, childKvs] at hch
+  cases hp : parseSeg p with
+  | mk b is =>
+  rw [segBase_eq hp]
+  simp only [hp] at hch
+  cases is with
+  | nil =>
+    have hb : b = p := Ytk.parseSeg_nil_base hp
+    subst hb
+    exact ⟨y, hch, .refl _⟩
+  | cons i is' =>
+    simp only at hch
+    cases hb : AMap.get? kvs b with
+    | none => rw [hb] at hch; simp [walkIdxH] at hch
+    | some a => rw [hb] at hch; exact ⟨a, rfl, walkIdxH_reach _ a y hch⟩
+
+theorem walkIdxH_congr {h g : Heap} : ∀ (is : List Nat) (a : Addr), (∀ b, Reach h a b → g.get? b = h.get? b) →
+    walkIdxH g (some a) is = walkIdxH h (some a) is
+  | [], _, _ => rfl
+  | i :: is, a, hag => by
+    simp only [walkIdxH]
+    rw [hag a (.refl _)]
+    cases hg : h.get? a with
+    | none => rfl
+    | some cell =>
+      cases cell with
+      | leaf _ => rfl
+      | cont _ => rfl
+      | list xs =>
+        simp only
+        cases hx : xs[i]? with
+        | none => cases is <;> rfl
+        | some k =>
+          exact walkIdxH_congr is k (fun b hb =>
+            hag b (.step hg (by simpa [Cell.kids] using List.mem_of_getElem? hx) hb))
+
+theorem childH_congr {h g : Heap} {y : Addr} (hag : ∀ b, Reach h y b → g.get? b = h.get? b) (name : String) :
+    childH g y name = childH h y name := by
+  simp only [childH]
+  rw [hag y (.refl _)]
+  cases hg : h.get? y with
+  | none => rfl
+  | some cell =>
+    cases cell with
+    | leaf _ => rfl
+    | list _ => rfl
+    | cont kvs =>
+      simp only [childKvs]
+      cases hp : parseSeg name with
+      | mk b is =>
+      cases is with
+      | nil => rfl
+      | cons i is' =>
+        simp only
+        cases hb : AMap.get? kvs b with
+        | none => simp [walkIdxH]
+        | some a =>
+          exact walkIdxH_congr _ a (fun b' hb' => hag b' (.step hg (mem_kids_of_get? hb) hb'))
+
+theorem contChildH_congr {h g : Heap} {y : Addr} (hag : ∀ b, Reach h y b → g.get? b = h.get? b) (name : String) :
+    contChildH g y name = contChildH h y name := by
+  simp only [contChildH, childH_congr hag name]
+  cases hch : childH h y name with
+  | none => rfl
+  | some x => simp only [hag x (childH_reach hch)]
+
+theorem lookupSegsH_congr {h g : Heap} : ∀ (segs : List String) (y : Addr),
+    (∀ b, Reach h y b → g.get? b = h.get? b) → lookupSegsH g y segs = lookupSegsH h y segs
+  | [], _, _ => rfl
+  | [s], y, hag => by simp only [lookupSegsH]; exact childH_congr hag s
+  | s :: t :: rest, y, hag => by
+    simp only [lookupSegsH, contChildH_congr hag s]
+    cases hcc : contChildH h y s with
+    | none => rfl
+    | some x =>
+      exact lookupSegsH_congr (t :: rest) x (fun b hb =>
+        hag b ((childH_reach (contChildH_some hcc).1).trans hb))
+
+/-- `AddValueAt` through the first component `p`: the written cell is `c` or lies below the member
+    `segBase p`, and no other member of `c` changes -/
+theorem addAtSegsH_spec2 {h : Heap} {rank : Addr → Nat} (hc : h.Closed) (hr : h.RankedBy rank) (hn : h.NilOk)
+    (hm : h.MapsOk) {v : Addr} (hv : v < h.size) (p : String) (rest : List String) (c : Addr) (h' : Heap)
+    (hclt : c < h.size) (he : addAtSegsH h c (p :: rest) v = some h') :
+    ∃ w, AttachSpec h c v w h' ∧ KeySpec h c w (segBase p) h' := by
+  cases rest with
+  | nil =>
+    simp only [addAtSegsH] at he
+    exact addH_spec2 hr hn hm he
+  | cons t rest' =>
+    have he0 := he
+    simp only [addAtSegsH] at he
+    cases hcc : contChildH h c p with
+    | some y =>
+      simp only [hcc] at he
+      obtain ⟨hch, kvsy, hgy⟩ := contChildH_some hcc
+      obtain ⟨w, spec⟩ := addAtSegsH_spec hc hr hn hm hv (t :: rest') y h' (by simp) (get?_lt hgy) he
+      have hcy := childH_reach hch
+      refine ⟨w, { spec with reach_w := hcy.trans spec.reach_w }, ?_⟩
+      intro kvs hg
+      obtain ⟨kp, hkp, hky⟩ := childH_base hg hch
+      have hwc : w ≠ c := not_reach_parent hr hg (mem_kids_of_get? hkp) (hky.trans spec.reach_w)
+      exact ⟨Or.inr ⟨kp, hkp, hky.trans spec.reach_w⟩, kvs, by rw [spec.frame c hclt (Ne.symm hwc)]; exact hg,
+        fun _ _ => rfl⟩
+    | none =>
+      simp only [hcc] at he
+      obtain ⟨hl, hf, _, hne⟩ := spineH_spec hc hr hn hv (t :: rest')
+      generalize spineH h (t :: rest') v = res at hl hf hne he
+      obtain ⟨h1, r⟩ := res
+      simp only at hl hf hne he
+      have hrf := hne (by simp)
+      have hpos : 0 < h.size := get?_lt hn
+      obtain ⟨rank1, hr1⟩ := rankedBy_extend hl hc hr hf hv hpos
+      obtain ⟨w, spec, key⟩ := addH_spec2 hr1 (nilOk_mono hn hl) (mapsOk_extend hl hm hf) he
+      refine ⟨w, spec.of_spine hc hl hf hrf hclt, ?_⟩
+      intro kvs hg
+      obtain ⟨k1, k2⟩ := key kvs (get?_of_le hl hg)
+      refine ⟨?_, k2⟩
+      rcases k1 with k1 | ⟨kp, hkp, hkw⟩
+      · exact Or.inl k1
+      · exact Or.inr ⟨kp, hkp, reach_of_le hl hc hkw (hc c _ hg kp (mem_kids_of_get? hkp))⟩
+
+/-- a call that goes through the member `segBase p` of `c` does not disturb what `Child(q)` finds, nor
+    anything below it, for a component `q` with another base key (tree-shaped document) -/
+theorem frame_other_member {h h' : Heap} {rank : Addr → Nat} (hc : h.Closed) (hr : h.RankedBy rank)
+    {c v w y0 : Addr} (hs : SibSep h c) {kvs : AMap Addr} (hg : h.get? c = some (.cont kvs)) {p q : String}
+    (spec : AttachSpec h c v w h') (key : KeySpec h c w (segBase p) h') (hne : segBase p ≠ segBase q)
+    (hch : childH h c q = some y0) :
+    childH h' c q = some y0 ∧ ∀ b, Reach h y0 b → h'.get? b = h.get? b := by
+  obtain ⟨kq, hkq, hry⟩ := childH_base hg hch
+  obtain ⟨hwhere, kvs', hg', hkeys⟩ := key kvs hg
+  have hkqlt : kq < h.size := hc c _ hg kq (mem_kids_of_get? hkq)
+  have U : ∀ b, Reach h kq b → h'.get? b = h.get? b := by
+    intro b hb
+    apply spec.frame b (reach_lt hc hb hkqlt)
+    intro e; subst e
+    rcases hwhere with hwc | ⟨kp, hkp, hkw⟩
+    · exact not_reach_parent hr hg (mem_kids_of_get? hkq) hb hwc
+    · obtain ⟨i, j, hij, hi, hj⟩ := kids_indices (AMap.mem_of_get? hkq) (AMap.mem_of_get? hkp) (Ne.symm hne)
+      exact hs c _ (.refl _) hg i j kq kp hi hj hij b hb hkw spec.composite_w
+  refine ⟨?_, fun b hb => U b (hry.trans hb)⟩
+  have hch0 := hch
+  simp only [childH, hg, hg', childKvs] at hch ⊢
+  cases hp : parseSeg q with
+  | mk bq is =>
+  have hbq : segBase q = bq := segBase_eq hp
+  simp only [hp] at hch ⊢
+  cases is with
+  | nil =>
+    have hb : bq = q := Ytk.parseSeg_nil_base hp
+    simp only at hch ⊢
+    rw [hkeys q (by rw [← hb, ← hbq]; exact Ne.symm hne)]
+    exact hch
+  | cons i is' =>
+    simp only at hch ⊢
+    rw [hkeys bq (by rw [← hbq]; exact Ne.symm hne)]
+    rw [hbq] at hkq
+    rw [hkq] at hch ⊢
+    rw [walkIdxH_congr _ kq U]
+    exact hch
+
+theorem SibSep.of_reach {h : Heap} {c y : Addr} (hs : SibSep h c) (hcy : Reach h c y) : SibSep h y :=
+  fun a cell hya hg => hs a cell (hcy.trans hya) hg
+
+/-- FRAME for handles at pointer level: `AddValueAt(ps, v)` on `c` does not move what `Lookup(qs)`
+    finds when the two paths diverge by key — a handle obtained at `qs` is still what is stored there -/
+theorem addAtSegsH_lookup_frame {h : Heap} {rank : Addr → Nat} (hc : h.Closed) (hr : h.RankedBy rank)
+    (hn : h.NilOk) (hm : h.MapsOk) {v : Addr} (hv : v < h.size) :
+    ∀ (ps qs : List String), Diverge ps qs → ∀ (c : Addr) (h' : Heap) (x : Addr), SibSep h c → c < h.size →
+      addAtSegsH h c ps v = some h' → lookupSegsH h c qs = some x → lookupSegsH h' c qs = some x
+  | _, _, @Diverge.head p q ps qs hne, c, h', x, hs, hclt, he, hlk => by
+    obtain ⟨w, spec, key⟩ := addAtSegsH_spec2 hc hr hn hm hv p ps c h' hclt he
+    -- the read succeeded, so `c` is a container
+    have hgc : ∃ kvs, h.get? c = some (.cont kvs) := by
+      cases hg : h.get? c with
+      | none => cases qs <;> simp [lookupSegsH, contChildH, childH, hg] at hlk
+      | some cell =>
+        cases cell with
+        | cont kvs => exact ⟨kvs, rfl⟩
+        | leaf _ => cases qs <;> simp [lookupSegsH, contChildH, childH, hg] at hlk
+        | list _ => cases qs <;> simp [lookupSegsH, contChildH, childH, hg] at hlk
+    obtain ⟨kvs, hg⟩ := hgc
+    cases qs with
+    | nil =>
+      simp only [lookupSegsH] at hlk ⊢
+      exact (frame_other_member hc hr hs hg spec key hne hlk).1
+    | cons t qs' =>
+      simp only [lookupSegsH] at hlk ⊢
+      cases hcc : contChildH h c q with
+      | none => simp [hcc] at hlk
+      | some y =>
+        simp only [hcc] at hlk
+        obtain ⟨hch, kvsy, hgy⟩ := contChildH_some hcc
+        obtain ⟨hch', U⟩ := frame_other_member hc hr hs hg spec key hne hch
+        have hgy' : h'.get? y = some (.cont kvsy) := by rw [U y (.refl _)]; exact hgy
+        simp only [contChildH, hch', hgy']
+        rw [lookupSegsH_congr (t :: qs') y U]
+        exact hlk
+  | _, _, @Diverge.tail p ps qs hps hqs hd, c, h', x, hs, hclt, he, hlk => by
+    obtain ⟨t, ps', rfl⟩ : ∃ t ps', ps = t :: ps' := by
+      cases ps with
+      | nil => exact absurd rfl hps
+      | cons t ps' => exact ⟨t, ps', rfl⟩
+    obtain ⟨u, qs', rfl⟩ : ∃ u qs', qs = u :: qs' := by
+      cases qs with
+      | nil => exact absurd rfl hqs
+      | cons u qs' => exact ⟨u, qs', rfl⟩
+    simp only [lookupSegsH] at hlk ⊢
+    simp only [addAtSegsH] at he
+    cases hcc : contChildH h c p with
+    | none => simp [hcc] at hlk
+    | some y =>
+      simp only [hcc] at hlk he
+      obtain ⟨hch, kvsy, hgy⟩ := contChildH_some hcc
+      have hylt := get?_lt hgy
+      have hcy := childH_reach hch
+      have ih := addAtSegsH_lookup_frame hc hr hn hm hv (t :: ps') (u :: qs') hd y h' x (hs.of_reach hcy) hylt he hlk
+      obtain ⟨w, spec⟩ := addAtSegsH_spec hc hr hn hm hv (t :: ps') y h' (by simp) hylt he
+      have hrw := rank_le_of_reach hr spec.reach_w
+      have hfr : ∀ b, b < h.size → rank y < rank b → h'.get? b = h.get? b := by
+        intro b hb hrk
+        exact spec.frame b hb (by intro e; subst e; omega)
+      have hch' := childH_frame hr hfr hch
+      have hgy' : ∃ kvs', h'.get? y = some (.cont kvs') := by
+        by_cases hyw : y = w
+        · subst hyw
+          obtain ⟨cw, cw', h1w, h2w, _, _, k3, _, _⟩ := spec.written
+          rw [hgy] at h1w
+          cases h1w
+          obtain ⟨kvs', rfl⟩ := isCont_eq_true (c := cw') (by rw [k3]; rfl)
+          exact ⟨kvs', h2w⟩
+        · exact ⟨kvsy, by rw [spec.frame y hylt hyw]; exact hgy⟩
+      obtain ⟨kvs', hgy'⟩ := hgy'
+      simp only [contChildH, hch', hgy']
+      exact ih
 
 end Ytk.Heap
